@@ -446,6 +446,7 @@ void runC06() {
     const int pools[] = {0, 1, 2, 3, 8, 1, 2};
     int poolN = pools[r.below(7)];
     if (th && r.chance(0.2)) poolN = static_cast<int>(r.range(4, 9));
+    if (vrt::g_args.getInt("bigpool", 0)) poolN = static_cast<int>(r.range(9, 12)); // two wake groups / steal rings
     int mult = r.chance(0.5) ? 1 : 32;
     bool external = poolN == 0 || r.chance(0.5); // root runs on the external (main) thread
     bool pollMode = poolN > 0 && r.chance(0.15);
@@ -456,7 +457,11 @@ void runC06() {
     int budget = static_cast<int>(r.range(10, th ? 600 : 200));
     int maxFan = static_cast<int>(r.range(2, 8));
     Prog prog;
+#if VRT_TSAN
+    const bool dag = false; // the state-based deadlock sentinel is off under TSan; the dag family is judged in the plain build
+#else
     const bool dag = (idx % 8) == 7; // programs with waits on sets/futures that the waiting task did not create
+#endif
     genNode(r, prog, 0, maxDepth, budget, maxFan, dag);
     std::string kinds;
     for (int k = 1; k < kNumKinds; ++k)
@@ -479,7 +484,7 @@ void runC06() {
     g_waits.store(0);
     rootDone.store(0, std::memory_order_relaxed);
     vrt::futexStatsReset();
-    vrt::watchdogArm();
+    vrt::watchdogArm(th ? 30 : 15); // fallback; the deadlock sentinel (10 s / 20 s of an absorbing state) normally decides first
     {
       dispenso::ThreadPool pool(static_cast<size_t>(poolN), static_cast<size_t>(mult));
       if (pollMode) pool.setSignalingWake(false, std::chrono::microseconds(200));
